@@ -633,6 +633,43 @@ def _coarse_key(case, r):
     return json.dumps([r["kind"], step, tags[0] if tags else "none"])
 
 
+def _same_wrong_answer_as_model(case, r):
+    """A located wrong answer is attributed to a LISTED finding only when the Lean MODEL of id_star -- the correspondence-checked
+    copy of the code the findings were written about -- gives the very same answer on this input under the same iteration order:
+    the listed finding explains THAT wrong answer, not any other wrong answer the real code may give on an input on which the
+    unchanged code is wrong as well.  Returns (same?, model's answer); (True, None) when the driver is not available."""
+    try:
+        m = canon_model(case, C.parse(C.LeanModel().ask(request(case))))
+    except Exception:  # noqa: BLE001
+        return True, None
+    if not m or m[0] != "orders":
+        return True, None
+    mans = m[1]
+    st = r.get("strategy")
+    if st is None:
+        return (r["unpatched"] in mans), (mans[0] if mans else None)
+    strategies = [tuple(s_) for s_ in K.id_strategies(case["event"])]
+    if tuple(st) not in strategies:
+        return True, None
+    i = strategies.index(tuple(st))
+    if i >= len(mans) or i >= len(r["by_order"]):
+        return True, None
+    return r["by_order"][i] == mans[i], mans[i]
+
+
+def _attributed_key(case, r):
+    """(_coarse_key sharpened by the comparison with the model, text to append to the failure message)"""
+    ck = _coarse_key(case, r)
+    if ck is not None and r["kind"] in ("value", "zero") and json.loads(ck)[0] in ("value", "zero"):
+        same, mans = _same_wrong_answer_as_model(case, r)
+        if not same:
+            # never listed: a wrong answer that is not the wrong answer of the code the findings describe
+            return json.dumps(["differs-from-the-wrong-answer-of-the-modelled-code", json.loads(ck)]), \
+                (" [the MODEL of id_star (Y0/Model/IdStar.lean), about which the listed finding was written, answers "
+                 f"{json.dumps(mans)[:300]} on this input: the listed finding does not explain this wrong answer]")
+    return ck, ""
+
+
 SHRINK = K.Shrinker(PROP, ("event",), _evaluate, ("g", "event", "seed"))
 
 
@@ -663,8 +700,9 @@ def run_python(case):
     nontrivial = r["in_domain"] and K.n_worlds(ev) >= 1 and bool(case["g"]["di"] or case["g"]["bi"]) and past3 and \
         shape in ("P", "sum", "prod", "unidentifiable", "zero")
     out = {"out": ["orders", by_order, r["flags"]], "fail": r["fail"], "nontrivial": bool(nontrivial), "tags": tags}
-    ck = _coarse_key(case, r) if r["fail"] else None
+    ck, note = _attributed_key(case, r) if r["fail"] else (None, "")
     if ck is not None:
+        out["fail"] += note
         out["finding_key"] = ck
     elif r["fail"] and not case.get("_noshrink"):
         small, key = SHRINK.shrink_to_key(case, r["kind"])
@@ -727,7 +765,7 @@ def _shrink_same_key(case, key0, budget=120):
                 break
             try:
                 r = _evaluate(cand, with_unpatched=False)
-                ok = bool(r["fail"]) and _coarse_key(cand, r) == key0
+                ok = bool(r["fail"]) and _attributed_key(cand, r)[0] == key0
             except Exception:
                 continue
             if ok:
@@ -741,7 +779,7 @@ def shrink(case):
         return
     r = _evaluate(case)
     if r["fail"]:
-        key0 = _coarse_key(case, r)
+        key0 = _attributed_key(case, r)[0]
         if key0 is not None:
             small = _shrink_same_key(case, key0)
         else:
@@ -753,7 +791,7 @@ def finding_key(case, res):
     if res.get("finding_key"):
         return res["finding_key"]
     r = _evaluate(case)
-    return _coarse_key(case, r) or SHRINK.key_of(case, r["kind"])
+    return _attributed_key(case, r)[0] or SHRINK.key_of(case, r["kind"])
 
 
 MANIFEST = {
